@@ -343,6 +343,14 @@ def monOp (op : String) (args : List String) : Option String :=
       let allowed := !funds && (if v == "accept" then isPending && !expired else isOwner)
       some (if acc == allowed then "ok" else if acc then "viol C15-unauthorised-accepted" else "viol C15-authorised-rejected")
     | _ => none
+  | "mon_refund_tolerated" => do
+    -- C20: <kind> <bank calls of the fault-free run> <refund calls among them (the last ones)> <attempts rejected
+    -- although the injected failure hit one of those refunds>
+    let (_, ts) ← pTok args
+    let (_calls, ts) ← pNat ts
+    let (_refunds, ts) ← pNat ts
+    let (blocked, _) ← pNat ts
+    some (if blocked == 0 then "ok" else "viol C20-refund-failure-blocks")
   | "mon_fault_outcome" => do
     -- an injected internal failure that is reached must abort the transaction, except the refund of
     -- a farm being closed (manual close, or automatic close when a farm is created)
